@@ -852,7 +852,7 @@ func ruleC02R6(w *World, r *Report) {
 			if !fin || len(atoms) == 0 || len(atoms) > 4 {
 				return
 			}
-			key := fmt.Sprintf("%s %s %q", nt.Obj().Name(), where, val)
+			key := fmt.Sprintf("%s %s %q %v", nt.Obj().Name(), where, val, atoms) // the same constant under another kind is another choice
 			if seen[key] {
 				return
 			}
